@@ -218,10 +218,14 @@ def rule_cli(chk):
             names = ["<bare>"] if h.type is None else ([unparse(e) for e in h.type.elts] if isinstance(h.type, ast.Tuple) else [unparse(h.type)])
             if any(nm in ("ValueError", "Exception", "<bare>", "BaseException") for nm in names):
                 hn = [x for x in cfg.live if x.kind == "handler" and x.ast is h][0]
-                r = cfg.reach([hn], avoid={x for x in cfg.live if x.kind == "for_next"})
-                ends_continue = any(x.kind == "continue" for x in r) and cfg.exit not in r and not any(x.kind in ("return", "raise_stmt", "break") for x in r)
-                writes = any("Not JSON" in unparse(x.ast) for x in r if x.ast is not None)
-                okh = ends_continue and writes
+                heads = {x for x in cfg.live if x.kind == "for_next"}
+                r = cfg.reach([hn], avoid=heads)
+                fmt_nodes = {a for a in cfg.live for b, _m in calls_in_node(a) if isinstance(b.func, ast.Name) and b.func.id == "formatter"}
+                # the handler goes on to the next line: nothing but the loop head follows (no exit, no formatting of the bad line)
+                next_line = cfg.exit not in r and not any(x.kind in ("return", "raise_stmt", "break") for x in r) and not (r & fmt_nodes) \
+                    and any(h_ in cfg.reach([hn]) for h_ in heads)
+                writes = any("Not JSON" in unparse(x.ast) for x in r if x.ast is not None and x.kind != "handler")
+                okh = next_line and writes
     if not okh:
         problems.append("a line that is not JSON is not reported ('Not JSON') and skipped with continue")
     # typestate: mapping operations on the decoded value are dominated by an isinstance(dict) check
@@ -276,8 +280,14 @@ def rule_cli(chk):
             problems.append("line %d uses the decoded JSON value as a mapping (%s) without a dominating isinstance(dict) check: an input line holding a JSON scalar, array or null aborts the command" % (n.lineno, what))
             break
     # the not-an-Eliot-message arm reports and continues
-    conts = [n for n in cfg.live if n.kind == "continue"]
-    okarm = any(any("Not an Eliot message" in unparse(p.ast) for p, l in c.pred if p.ast is not None) for c in conts)
+    heads_ = {x for x in cfg.live if x.kind == "for_next"}
+    fmt_nodes_ = {a for a in cfg.live for b, _m in calls_in_node(a) if isinstance(b.func, ast.Name) and b.func.id == "formatter"}
+    reports = [n for n in cfg.live if n.kind == "stmt" and n.ast is not None and "Not an Eliot message" in unparse(n.ast)]
+    okarm = False
+    for w_ in reports:
+        r_ = cfg.reach([w_], avoid=heads_)
+        if cfg.exit not in r_ and not any(x.kind in ("return", "raise_stmt", "break") for x in r_) and not (r_ & fmt_nodes_):
+            okarm = True
     if not okarm:
         problems.append("messages lacking the required fields are not reported ('Not an Eliot message') and skipped")
     # no fallback arm leaves the loop
